@@ -440,6 +440,116 @@ func (s *Sim) noteAcquire(w *worker, m *Mutex) {
 	}
 }
 
+// Map stands in for sync.Map. Every operation is atomic and one scheduling point (the simulated mutex); Range visits a
+// snapshot of the entries in insertion order, so that iteration is deterministic (sync.Map.Range promises no order and
+// no consistent snapshot either). The zero value is ready to use.
+type Map struct {
+	mu   Mutex
+	keys []any
+	vals map[any]any
+}
+
+func (m *Map) lock() {
+	m.mu.Lock()
+	if m.vals == nil {
+		m.vals = map[any]any{}
+	}
+}
+
+func (m *Map) drop(key any) {
+	delete(m.vals, key)
+	for i, k := range m.keys {
+		if k == key {
+			m.keys = append(m.keys[:i:i], m.keys[i+1:]...)
+			break
+		}
+	}
+}
+
+func (m *Map) Load(key any) (any, bool) {
+	m.lock()
+	defer m.mu.Unlock()
+	v, ok := m.vals[key]
+	return v, ok
+}
+
+func (m *Map) Store(key, value any) { m.Swap(key, value) }
+
+func (m *Map) LoadOrStore(key, value any) (any, bool) {
+	m.lock()
+	defer m.mu.Unlock()
+	if v, ok := m.vals[key]; ok {
+		return v, true
+	}
+	m.vals[key] = value
+	m.keys = append(m.keys, key)
+	return value, false
+}
+
+func (m *Map) LoadAndDelete(key any) (any, bool) {
+	m.lock()
+	defer m.mu.Unlock()
+	v, ok := m.vals[key]
+	if ok {
+		m.drop(key)
+	}
+	return v, ok
+}
+
+func (m *Map) Delete(key any) { m.LoadAndDelete(key) }
+
+func (m *Map) Swap(key, value any) (any, bool) {
+	m.lock()
+	defer m.mu.Unlock()
+	prev, ok := m.vals[key]
+	if !ok {
+		m.keys = append(m.keys, key)
+	}
+	m.vals[key] = value
+	return prev, ok
+}
+
+func (m *Map) CompareAndSwap(key, old, new any) bool {
+	m.lock()
+	defer m.mu.Unlock()
+	if v, ok := m.vals[key]; ok && v == old {
+		m.vals[key] = new
+		return true
+	}
+	return false
+}
+
+func (m *Map) CompareAndDelete(key, old any) bool {
+	m.lock()
+	defer m.mu.Unlock()
+	if v, ok := m.vals[key]; ok && v == old {
+		m.drop(key)
+		return true
+	}
+	return false
+}
+
+func (m *Map) Range(f func(key, value any) bool) {
+	m.lock()
+	keys := append([]any{}, m.keys...)
+	vals := make([]any, len(keys))
+	for i, k := range keys {
+		vals[i] = m.vals[k]
+	}
+	m.mu.Unlock()
+	for i, k := range keys {
+		if !f(k, vals[i]) {
+			return
+		}
+	}
+}
+
+func (m *Map) Clear() {
+	m.lock()
+	defer m.mu.Unlock()
+	m.keys, m.vals = nil, map[any]any{}
+}
+
 type WaitGroup struct {
 	n    int
 	sync int // race-detector edge: Done happens-before the return of Wait, as with sync.WaitGroup
@@ -496,6 +606,11 @@ func Send[T any](ch chan<- T, v T) {
 	if ch != nil {
 		select {
 		case ch <- v:
+			// like Unlock: what follows a send is no longer ordered before the receiver, so the receiver must be
+			// able to run between the send and whatever follows it
+			if Active() {
+				pre(OpYield)
+			}
 			return
 		default:
 		}
@@ -534,6 +649,10 @@ func Close[T any](ch chan<- T) {
 		pre(OpClose)
 	}
 	close(ch)
+	// (a scheduling point after the close as well, for the same reason as after Unlock and Send)
+	if Active() {
+		pre(OpYield)
+	}
 }
 
 type Case struct {
